@@ -8,7 +8,7 @@ import (
 )
 
 // htmlTexts never start with a newline byte (a close tag swallows one) and never contain "<?".
-var htmlTexts = []string{"html", "<b>x</b>\n", " text ", "a < b\n", "<p>\r\n</p>", "{", "}\n", "x\ry", "1 + 1", "#!x\n", "// not a comment\n", "<", "é\n", "$a", "\"", "'", "<!-- c -->"}
+var htmlTexts = []string{"html", "<b>x</b>\n", " text ", "a < b\n", "<p>\r\n</p>", "{", "}\n", "x\ry", "1 + 1", "#!x\n", "// not a comment\n", "<", "é\n", "$a", "\"", "'", "<!-- c -->", "\xef\xbb\xbf", "\xef\xbb\xbf\n", "\xff\xfe<\x00"}
 
 // endsInCloseTag reports whether the token text ends with a close tag (with or without its newline).
 func endsInCloseTag(t *token.Token) bool {
